@@ -144,8 +144,6 @@ theorem newValidIdsCursor_implements {c : AnyCursor} {d : Dir} {L : List Bytes} 
 
 /-! ### the scanner used as a cursor (no paging: IterateIds) -/
 
-def ScanCfg.keep (cfg : ScanCfg) (x : Bytes) : Bool := !cfg.skipRow x && cfg.filter x
-
 def ScanCfg.Unpaged (cfg : ScanCfg) : Prop := cfg.targetOffset = 0 ∧ cfg.targetLimit = none
 
 section scan
@@ -171,7 +169,7 @@ theorem scanNext_spec (h : Refines M S some R) {cfg : ScanCfg} (hcfg : cfg.Unpag
       simp only [List.tail_cons] at hR1
       have hlen : t.length < fuel := by simpa using hf
       simp only [List.isEmpty_cons, Bool.not_false, Bool.not_true, Bool.false_eq_true, if_false,
-        h.current hR, hs1, Outcome.ok_bind, Option.getD_some, hcfg.1, Nat.not_lt_zero]
+        h.current hR, hs1, Outcome.ok_bind, Option.getD_some, Option.isNone_some, hcfg.1, Nat.not_lt_zero]
       by_cases hsk : cfg.skipRow x = true
       · have hk : cfg.keep x = false := by simp [ScanCfg.keep, hsk]
         obtain ⟨st', hst', rem', hR', hle, hm⟩ := scanNext_spec h hcfg fuel (cur := some x) (off := off) (col := col) hR1 hlen
